@@ -1597,3 +1597,275 @@ pub fn c09(ctx: &mut Ctx, path: &str) {
     }
     if segs.iter().any(|s| *s == b"." || *s == b"..") { ctx.nontrivial_cur(); }
 }
+
+// =====================================================================  C10
+
+fn seg_class(s: &[u8]) -> &'static str {
+    if s.is_empty() { "empty" } else if s == b"." { "dot" } else if s == b".." { "dotdot" } else if s.contains(&b':') { "colon" } else { "plain" }
+}
+fn c10_feats(op: &Op, variant: &str, ctxt: &str, pre_abs: bool, pre: &[Vec<u8>]) -> Feats {
+    vec![
+        ("family", FAM.into()),
+        ("op", op.name().into()),
+        ("arg", match op { Op::Push(s) | Op::SPush(s) => seg_class(s.as_bytes()).into(), Op::SAppend(_) => "path".into(), _ => "-".into() }),
+        ("variant", variant.into()),
+        ("context", ctxt.into()),
+        ("pre_absolute", yn(pre_abs)),
+        ("pre_nsegs", match pre.len() { 0 => "0".into(), 1 => "1".into(), _ => "2+".into() }),
+        ("pre_first", pre.first().map_or("none", |s| seg_class(s)).into()),
+        ("pre_last", pre.last().map_or("none", |s| seg_class(s)).into()),
+    ]
+}
+
+struct C10Model {
+    abs: bool,
+    segs: Vec<Vec<u8>>,
+}
+
+/// Candidate expected segment lists for `op` (None = the statement is silent: only generic clauses).
+fn c10_expect(m: &C10Model, op: &Op, follows_authority: bool, pre_raw: &[Vec<u8>]) -> Option<Vec<Vec<Vec<u8>>>> {
+    let segs = &m.segs;
+    let has_dots = segs.iter().any(|s| s == b"." || s == b"..");
+    let v = |s: &str| s.as_bytes().to_vec();
+    match op {
+        Op::Push(s) => { let mut c = segs.clone(); c.push(v(s)); Some(vec![c]) }
+        Op::Pop => {
+            if segs.is_empty() {
+                if m.abs { Some(vec![vec![]]) } else if follows_authority { Some(vec![vec![v("..")], vec![]]) } else { Some(vec![vec![v("..")]]) }
+            } else if segs.last().unwrap() == b".." {
+                let mut c = segs.clone(); c.push(v("..")); Some(vec![c])
+            } else {
+                let mut c = segs.clone(); c.pop();
+                let mut out = vec![c.clone()];
+                // zone (e): the popped segment sat directly behind a shield-like leading '.'
+                if c.is_empty() && pre_raw.len() == 2 && pre_raw[0] == b"." { out.push(vec![v(".")]); }
+                Some(out)
+            }
+        }
+        Op::Clear => Some(vec![vec![]]),
+        Op::SPush(s) if s == "." || s == ".." => {
+            if has_dots { return None; }
+            let mut c = segs.clone();
+            if s == ".." {
+                if c.is_empty() { if !m.abs { c.push(v("..")); } } else { c.pop(); }
+            }
+            if !c.is_empty() { c.push(Vec::new()); }
+            let mut out = vec![c];
+            if s == ".." && segs.is_empty() && !m.abs && follows_authority { out.push(vec![]); }
+            Some(out)
+        }
+        Op::SPush(s) => {
+            let mut c = segs.clone(); c.push(v(s));
+            if s.is_empty() && segs.is_empty() { Some(vec![c, segs.clone()]) } else { Some(vec![c]) }
+        }
+        Op::SAppend(p) => {
+            let (_pabs, q) = model::segments(p.as_bytes());
+            if q.is_empty() { return Some(vec![segs.clone()]); }
+            if has_dots { return None; }
+            let mut outs = Vec::new();
+            for skip_empty_on_empty in [false, true] {
+                let mut cur = segs.clone();
+                for seg in &q {
+                    if *seg == b"." {
+                    } else if *seg == b".." {
+                        match cur.last() {
+                            Some(x) if x != b".." => { cur.pop(); }
+                            _ => { if !m.abs { cur.push(v("..")); } }
+                        }
+                    } else if seg.is_empty() && cur.is_empty() && skip_empty_on_empty {
+                    } else {
+                        cur.push(seg.to_vec());
+                    }
+                }
+                let open = q.last().map_or(false, |l| *l == b"." || *l == b"..");
+                if open && !cur.is_empty() { cur.push(Vec::new()); }
+                outs.push(cur);
+            }
+            Some(outs)
+        }
+        Op::Norm => {
+            let r: Vec<&[u8]> = segs.iter().map(|x| &x[..]).collect();
+            let n: Vec<Vec<u8>> = model::norm_seq(m.abs, &r).into_iter().map(|x| x.to_vec()).collect();
+            let mut out = vec![n.clone()];
+            if n.len() == 1 && n[0].is_empty() { out.push(vec![]); }
+            Some(out)
+        }
+        _ => Some(vec![segs.clone()]),
+    }
+}
+
+/// One observed step: (absolute?, raw segments) of the path text.
+type Obs = (bool, Vec<Vec<u8>>);
+
+fn c10_step_check(ctx: &mut Ctx, m: &mut C10Model, op: &Op, variant: &str, ctxt: &str, follows_authority: bool, pre_raw: &[Vec<u8>], view: &[u8], history: &str) -> bool {
+    let (aabs, araw) = segs_owned(view);
+    let pre = m.segs.clone();
+    let pre_abs = m.abs;
+    let feats = || c10_feats(op, variant, ctxt, pre_abs, &pre);
+    if !valid(Prod::Path, view) {
+        ctx.fail("C10.valid", feats(), format!("[{}] after {:?} the path is {} which is not a valid path (history {:?})", variant, op, show(view), history));
+        return false;
+    }
+    // absoluteness: kept, except that a path following an authority is absolute as soon as it is non-empty
+    let abs_ok = if follows_authority { view.is_empty() || aabs } else { aabs == m.abs };
+    if !abs_ok {
+        ctx.fail("C10.absoluteness", feats(), format!("[{}] after {:?} the path {} is {} but it was {} (history {:?})", variant, op, show(view), if aabs { "absolute" } else { "relative" }, if m.abs { "absolute" } else { "relative" }, history));
+        return false;
+    }
+    if follows_authority && aabs { m.abs = true; }
+    let mut expect = c10_expect(&C10Model { abs: pre_abs, segs: pre.clone() }, op, follows_authority, pre_raw);
+    if follows_authority && !pre_abs {
+        // the path is "" after an authority: it is relative as text but becomes absolute as soon as
+        // it is non-empty; accept the outcome under either reading of '..'
+        if let (Some(a), Some(mut b2)) = (expect.as_mut(), c10_expect(&C10Model { abs: true, segs: pre.clone() }, op, follows_authority, pre_raw)) {
+            a.append(&mut b2);
+        }
+    }
+    match expect {
+        None => {
+            ctx.stratum("zone:silent-symbolic-on-dotted-path");
+            m.segs = logical(&araw);
+            true
+        }
+        Some(cands) => {
+            let la = logical(&araw);
+            if let Some(c) = cands.iter().find(|c| araw == **c || la == logical(c)) {
+                m.segs = logical(c);
+                if la != araw && araw != *c { ctx.stratum("shield-observed"); }
+                true
+            } else {
+                ctx.fail("C10.list", feats(), format!("[{}] {:?} on path with segments {} gives {} (segments {}) but list semantics give {} (history {:?})", variant, op, segs_show(&pre), show(view), segs_show(&araw), cands.iter().map(|c| segs_show(c)).collect::<Vec<_>>().join(" or "), history));
+                false
+            }
+        }
+    }
+}
+
+fn c10_abstract(abs: bool, fa: bool, segs: &[Vec<u8>]) -> String {
+    format!("{}{}|{}|{}|{}", abs as u8, fa as u8, segs.len().min(3), segs.first().map_or("none", |s| seg_class(s)), segs.last().map_or("none", |s| seg_class(s)))
+}
+
+pub fn c10_history(ctx: &mut Ctx, initial: &str, ops_text: &str) {
+    let ops: Vec<Op> = parse_ops(ops_text).into_iter().filter(|o| o.is_path_op() && o.args_valid()).collect();
+    if ops.is_empty() { return; }
+    let sp0 = model::split(b(initial));
+    let fa = sp0.authority.is_some();
+    let ctxt = format!("{}{}", if sp0.scheme.is_some() { "S" } else { "-" }, if fa { "A" } else { "-" });
+    let (abs0, segs0) = segs_owned(sp0.path);
+    ctx.stratum(&format!("context:{}", ctxt));
+    ctx.stratum(&format!("history-len:{}", ops.len().min(4)));
+    // ---- (1) one handle
+    let Ok(mut buf) = RiRefBuf::new(own(initial)) else { ctx.stratum("skipped:rejected-by-library"); return; };
+    let mut m = C10Model { abs: abs0, segs: logical(&segs0) };
+    let mut obs1: Vec<Obs> = Vec::new();
+    let mut ok = true;
+    {
+        let mut pm = buf.path_mut();
+        let mut pre_raw = segs0.clone();
+        for op in &ops {
+            ctx.call(op.name());
+            let pre_state = c10_abstract(m.abs, fa, &m.segs);
+            match crate::ctx::guard(|| { apply_path_op(&mut pm, op); (*pm).as_bytes().to_vec() }) {
+                Err(msg) => { ctx.fail("C10.panic", c10_feats(op, "one-handle", &ctxt, m.abs, &m.segs), format!("{:?} panicked: {} (initial {}, history {:?})", op, msg, show(b(initial)), ops_text)); ok = false; break; }
+                Ok(view) => {
+                    if !c10_step_check(ctx, &mut m, op, "one-handle", &ctxt, fa, &pre_raw, &view, ops_text) { ok = false; break; }
+                    let o = segs_owned(&view);
+                    pre_raw = o.1.clone();
+                    obs1.push(o);
+                    ctx.set_insert("states", crate::rng::hash_bytes(c10_abstract(m.abs, fa, &m.segs).as_bytes()));
+                    ctx.set_insert("transitions", crate::rng::hash_bytes(format!("{}>{}:{}", pre_state, op.name(), match op { Op::Push(s) | Op::SPush(s) => seg_class(s.as_bytes()), _ => "-" }).as_bytes()));
+                }
+            }
+        }
+    }
+    if ok {
+        // frame + handle view == path of the buffer after drop
+        let after = buf.as_bytes().to_vec();
+        let f = || c10_feats(&ops[ops.len() - 1], "one-handle", &ctxt, m.abs, &m.segs);
+        if std::str::from_utf8(&after).is_err() || !valid(Prod::RiRef, &after) {
+            ctx.fail("C10.frame", f(), format!("after {:?} on {} the buffer is {} which is not a valid reference", ops_text, show(b(initial)), show(&after)));
+            ok = false;
+        } else {
+            let asp = model::split(&after);
+            if asp.scheme != sp0.scheme || asp.authority != sp0.authority || asp.query != sp0.query || asp.fragment != sp0.fragment {
+                ctx.fail("C10.frame", f(), format!("after {:?} on {} the buffer is {}: scheme, authority, query or fragment changed", ops_text, show(b(initial)), show(&after)));
+                ok = false;
+            } else if let Some(last) = obs1.last() {
+                if segs_owned(asp.path) != *last {
+                    ctx.fail("C10.handle-view", f(), format!("after {:?} on {} the handle viewed segments {} but the buffer's path is {}", ops_text, show(b(initial)), segs_show(&last.1), show(asp.path)));
+                    ok = false;
+                }
+            }
+        }
+    }
+    // ---- (2) fresh handle per call
+    if let Ok(mut buf2) = RiRefBuf::new(own(initial)) {
+        let mut m2 = C10Model { abs: abs0, segs: logical(&segs0) };
+        let mut pre_raw = segs0.clone();
+        for (i, op) in ops.iter().enumerate() {
+            match crate::ctx::guard(|| { buf2.path_mut_apply(op); buf2.as_bytes().to_vec() }) {
+                Err(msg) => { ctx.fail("C10.panic", c10_feats(op, "fresh-handle", &ctxt, m2.abs, &m2.segs), format!("{:?} through a fresh handle panicked: {} (initial {}, history {:?})", op, msg, show(b(initial)), ops_text)); break; }
+                Ok(after) => {
+                    if std::str::from_utf8(&after).is_err() || !valid(Prod::RiRef, &after) {
+                        ctx.fail("C10.frame", c10_feats(op, "fresh-handle", &ctxt, m2.abs, &m2.segs), format!("{:?} (step {}) on {} leaves {} which is not a valid reference (history {:?})", op, i + 1, show(b(initial)), show(&after), ops_text));
+                        break;
+                    }
+                    let asp = model::split(&after);
+                    if asp.scheme != sp0.scheme || asp.authority != sp0.authority || asp.query != sp0.query || asp.fragment != sp0.fragment {
+                        ctx.fail("C10.frame", c10_feats(op, "fresh-handle", &ctxt, m2.abs, &m2.segs), format!("{:?} (step {}) on {} leaves {}: scheme, authority, query or fragment changed (history {:?})", op, i + 1, show(b(initial)), show(&after), ops_text));
+                        break;
+                    }
+                    if !c10_step_check(ctx, &mut m2, op, "fresh-handle", &ctxt, fa, &pre_raw, asp.path, ops_text) { break; }
+                    let o = segs_owned(asp.path);
+                    pre_raw = o.1.clone();
+                    if ok && i < obs1.len() && (logical(&o.1) != logical(&obs1[i].1) || o.0 != obs1[i].0) {
+                        ctx.fail("C10.compose", c10_feats(op, "fresh-vs-one-handle", &ctxt, m2.abs, &m2.segs), format!("step {} ({:?}) of {:?} on {}: one handle gives segments {}, a fresh handle per call gives {}", i + 1, op, ops_text, show(b(initial)), segs_show(&obs1[i].1), segs_show(&o.1)));
+                        break;
+                    }
+                }
+            }
+        }
+    }
+    // ---- (3) stand-alone path buffer
+    if let Ok(path0) = std::str::from_utf8(sp0.path) {
+        let path0 = if fa && path0.is_empty() { "/" } else { path0 };
+        if let Ok(mut pb) = PathBuf::new(own(path0)) {
+            let mut m3 = C10Model { abs: abs0 || fa, segs: logical(&segs0) };
+            let mut pre_raw = segs0.clone();
+            for (i, op) in ops.iter().enumerate() {
+                match crate::ctx::guard(|| { apply_pathbuf_op(&mut pb, op); pb.as_bytes().to_vec() }) {
+                    Err(msg) => { ctx.fail("C10.panic", c10_feats(op, "standalone", "path", m3.abs, &m3.segs), format!("PathBuf {:?} panicked: {} (initial path {}, history {:?})", op, msg, show(sp0.path), ops_text)); break; }
+                    Ok(view) => {
+                        if !c10_step_check(ctx, &mut m3, op, "standalone", "path", false, &pre_raw, &view, ops_text) { break; }
+                        let o = segs_owned(&view);
+                        pre_raw = o.1.clone();
+                        if ok && i < obs1.len() && (logical(&o.1) != logical(&obs1[i].1) || (!fa && o.0 != obs1[i].0)) {
+                            // zone (f): pop on an empty path after an authority may or may not append '..'
+                            let zone_f = fa && matches!(op, Op::Pop | Op::SPush(_) | Op::SAppend(_));
+                            if !zone_f {
+                                ctx.fail("C10.compose", c10_feats(op, "standalone-vs-embedded", &ctxt, m3.abs, &m3.segs), format!("step {} ({:?}) of {:?}: embedded in {} the path has segments {}, the stand-alone PathBuf {} has {}", i + 1, op, ops_text, show(b(initial)), segs_show(&obs1[i].1), show(sp0.path), segs_show(&o.1)));
+                            }
+                            break;
+                        }
+                    }
+                }
+            }
+        }
+    }
+    // ---- RiBuf takes the same code path
+    if sp0.scheme.is_some() && ok {
+        if let Ok(mut fb) = RiBuf::new(own(initial)) {
+            if let Ok(t) = crate::ctx::guard(|| { { let mut pm = fb.path_mut(); for op in &ops { apply_path_op(&mut pm, op); } } fb.as_bytes().to_vec() }) {
+                if t != buf.as_bytes() {
+                    ctx.fail("C10.compose", c10_feats(&ops[0], "RiBuf-vs-RiRefBuf", &ctxt, abs0, &segs0), format!("{:?} on {}: RiBuf gives {}, RiRefBuf gives {}", ops_text, show(b(initial)), show(&t), show(buf.as_bytes())));
+                }
+            }
+        }
+    }
+    ctx.nontrivial_cur();
+}
+
+trait PathMutApply { fn path_mut_apply(&mut self, op: &Op); }
+impl PathMutApply for RiRefBuf {
+    fn path_mut_apply(&mut self, op: &Op) { let mut pm = self.path_mut(); apply_path_op(&mut pm, op); }
+}
